@@ -95,7 +95,7 @@ Proof.
           apply EvalTotalOrder.alookup_none in Hal. contradiction. }
         subst rbase. destruct (va_known_of_good _ _ _ _ (cgood_tail _ _ Hg) H) as [Hk _].
         apply (va_known_export (a :: rest) (obj_layer props :: xbof E rid) w fe xv); [|exact Hx].
-        exists (S big_fuel). unfold obj_layer. apply (va_known_obj_skip big_fuel _ _ _ _ a rest k w Ek Hnp Eo Hk).
+        exists (S (va_need (xbof E rid) (a :: rest))). unfold obj_layer. apply (va_known_obj_skip _ _ _ _ _ a rest k w Ek Hnp Eo Hk).
     + (* ESecretPlain: the text is a scalar, a longer path raises a diagnostic *)
       destruct HS as (vc & Hdc & _). rewrite Hdc in H.
       assert (Hatc : at_id E (fst rid, snd rid ++ [IIdx 0]) (EStr s)) by (eapply at_id_child; [exact Hat|reflexivity]).
@@ -273,7 +273,7 @@ Proof.
   intros Hu E r Hn Ho Hk Hres Ha0 Hpb Hg xt Hx. unfold r in *.
   destruct (rooted_reference_value f root name d s k a0 rest Hu (conj Hn Ho) Hk Hres Hpb) as (w & Hw & ->).
   rewrite (aresolve_imports _ _ a0 rest Ha0) in Hw. apply va0_spec in Hw.
-  destruct (value_access_export big_fuel _ rest w big_fuel xt Hg Hw Hx) as (xk & H1 & H2).
+  destruct (value_access_export _ _ rest w big_fuel xt Hg Hw Hx) as (xk & H1 & H2).
   exists xk. split; assumption.
 Qed.
 
@@ -291,7 +291,7 @@ Proof.
   intros Hu E r Hn Ho Hk Hres Ha0 Hpb Hg xt Hx. unfold r in *.
   destruct (rooted_reference_value f root name d s k a0 rest Hu (conj Hn Ho) Hk Hres Hpb) as (w & Hw & ->).
   rewrite (aresolve_context _ _ a0 rest Ha0) in Hw. apply va0_spec in Hw.
-  destruct (value_access_export big_fuel _ rest w big_fuel xt Hg Hw Hx) as (xk & H1 & H2).
+  destruct (value_access_export _ _ rest w big_fuel xt Hg Hw Hx) as (xk & H1 & H2).
   exists xk. split; assumption.
 Qed.
 
